@@ -19,7 +19,7 @@ from . import _core_common as cc
 PROP = 'C10'
 ENGINE = 'coresim'
 HASH_CLASSES = 1
-RUNS = {'quick': 480, 'thorough': 12000}
+RUNS = {'quick': 1200, 'thorough': 12000}
 RUN_TIMEOUT = 400
 DETERMINISM_RUNS = 6
 RULE = ("Each run = one exact-solution spacetime (HOM, ON long-wavelength "
